@@ -55,4 +55,26 @@ CHECKS = {
     'C07': dict(engine=ENGINE_A, technique='machine-checked proof (Coq): model regenerated from source by an abstract interpreter + implementation oracle', ref='DESIGN.md section 7 C07',
                 note='extractor = subclass of pyfront Interp in t_C07.py, trusted but validated each run (spied and scripted RNG, interval goals); GeneratorND tabulated at N=2; linspace/logspace/meshgrid/rand/randperm/atan2/acos semantics modelled; see known_findings.d/C07.json for recorded defects',
                 text='Coq theorems about the method table and per-index formulas regenerated from generators.py: table totality, static/fresh classification, in-domain and definedness of all noise-free node formulas, meshgrid(ij)+flatten = row-major tensor product for any number of axes, one LHS point per stratum for every u and permutation, spherical r/phi ranges, theta under the acos-argument hypothesis'),
+    'C17': dict(engine=ENGINE_A, technique=TECH_A, ref='DESIGN.md section 7 C17',
+                note=NOTE_A + '; PARTIAL: mutual orthogonality / common normalisation of the 25 harmonics is not yet a Coq theorem (checked by exact quadrature on the implementation each run); scipy Legendre coefficients modelled by exact rationals (compared each run); basis-Laplacian theorems at the generated sizes (harmonics 0..4 = all supported, zonal 0/2/4, Fourier 0/1/3)',
+                text='the 25 real spherical harmonics regenerated from function_basis.py are eigenfunctions of the angular Laplacian with eigenvalue '
+                     '-l(l+1) for all angles; documented column order for max_degree 0..4; HarmonicsLaplacian equals operators.spherical_laplacian '
+                     'of sum_k R_k(r) Y_k for arbitrary coefficient functions (linearity + 25 per-harmonic identities); Legendre 0..12 satisfy '
+                     'Legendre\'s equation with P(1)=1; zonal harmonics = sqrt((2l+1)/(4 pi)) P_l(cos theta) for any degree list up to 12; '
+                     'Fourier column order; zonal and Fourier Laplacians exact'),
+    'C16': dict(engine=ENGINE_B, technique='machine-checked proof (Coq) about a hand-written executable model + in-kernel correspondence with the implementation under real fit()', ref='DESIGN.md section 7 C16',
+                note='trusted: Coq kernel, Reals axioms + Flocq for the Eve theorems (listed in evidence; the other theorems are axiom-free), hand-written model tied to the real classes on every run by vm_compute cases under real fit() sequences plus an independent documented-predicate oracle; modelled not verified: float64 log/div/+EPS in EveCallback, IEEE comparisons of integer-valued scripted metrics, optimiser step rule; see known_findings.d/C16.json',
+                text='Coq theorems on an executable model of callbacks.py / BaseMonitor.to_callback / the fit loop: period, interval, first/last predicates for all epochs and parameters; And/Or/Not/Xor equal Boolean and/or/not/odd-parity for every list length and nesting depth (structural induction); stop ends fit after the firing epoch; set-once/reset; SetOptimizer parameter list (partial: nets not sharing parameters); repeated-metric counter = history streak for every history and relation when evaluated once per epoch from the first epoch; EveCallback n = min(n_0*2^k, n_max) over R with int() as truncation away from doubling boundaries'),
+    'C20': dict(engine=ENGINE_A, technique='machine-checked proof (Coq): theorems about models regenerated from source by translators + correspondence-validated hand model', ref='DESIGN.md section 7 C20',
+                note='loops and history are a hand model (coq/model/Legacy.v) validated each run against the real _solve_* with a spying approximator; trusted: Coq kernel, Reals/Coquelicot axioms, pyfront + the sampler translator in t_C20.py (validated each run: float64, interval goals, generated steps evaluated in Coq over Q against the real generators under a scripted torch.rand); modelled not verified: IEEE rounding, autograd, linspace/cartesian_prod/squeeze/slicing, rand in [0,1), randperm; see known_findings.d/C20.json',
+                text='Coq theorems: legacy approximators equal u0 (and du/dt = u0dot, also as is_derive) at t=0 for every network, about terms regenerated from temporal.py; every draw (induction on the draw index, every oracle in [0,1)) of the 1-D, temporal, rectangle and segment samplers lies in its stratum/cell, about step functions regenerated from the generator source (loop-carried variables detected by liveness); mini-batches partition any permutation for batch_size>=1 incl. non-divisible sizes and the loop terminates; one history entry per epoch per series'),
+    'C18': dict(engine=ENGINE_B, technique='machine-checked proof (Coq): invariants of an executable model parameterised by source-extracted facts + in-Coq correspondence with the implementation', ref='DESIGN.md section 7 C18',
+                note='hand model (coq/model/Persist.v) with facts re-extracted from solvers_utils.py each run, validated against real Solver1D/Solver2D/BundleSolver1D scenarios in two streams (dill as installed, where every save raises PicklingError, and a dill.dump(byref=True) shim); trusted: Coq kernel (theorems closed under the global context), the t_C18.py extractor, the state abstraction of persist_h.py; modelled not verified: pickling fidelity, deepcopy, optimiser update rules, inspect.getsourcelines; see known_findings.d/C18.json',
+                text='Coq theorems about an executable model of save/load/get_conditions parameterised by facts re-extracted from the source on every run: save leaves the solver unchanged whether or not serialisation succeeds; load(save s) has the same kind, nets, best nets, loss histories, global epoch and optimiser and equal solutions; any number of save/load/fit cycles (induction over the op list) never lose or alter history; best tracking after load'),
+    'C14': dict(engine=ENGINE_B, technique=TECH_B, ref='DESIGN.md section 7 C14',
+                note='trusted: Coq kernel, hand-written model coq/model/Batch.v tied to BatchGenerator per run by in-kernel vm_compute cases (batches per dimension + draws taken) and by the implementation-level prefix/size oracle over a spying source; modelled not verified: torch.cat, slicing, len',
+                text='Coq theorems (axiom-free) for any number of calls, any batch size and any stream of underlying draws (fixed or varying sizes): delivered batches concatenated ++ cache = draws taken (prefix), every batch has exactly `size` rows, termination for non-empty draws (always-empty source shown to diverge), and the code\'s per-dimension slicing is the transposition of the row model (rows intact)'),
+    'C13': dict(engine=ENGINE_B, technique=TECH_B, ref='DESIGN.md section 7 C13',
+                note='trusted: Coq kernel, hand-written model coq/model/GenComb.v (isinstance dispatch, zip truncation, construction-time .size, stale filter size) tied to generators.py per run by in-kernel vm_compute cases (values, container, .size, raises) and an independent reference interpreter on the real classes; assumes fresh objects (tree, no sharing), pointwise user maps; see known_findings.d/C13.json',
+                text='Coq theorems (axiom-free) for combinator trees of any depth and any call index: the columns the code returns are the transposition of a row-level specification (concat=append, ensemble=juxtapose, mesh=row-major Cartesian product with product length/every combination/flattening, transform, filter+size update, resample rows of one draw with distinct indices, static/predefined constant, sampler shape), row coherence by structural induction, size arithmetic for static-size trees'),
 }
